@@ -389,38 +389,37 @@ def _render(parts):
 
 
 def _cli_rule(prog, chk, R):
-    cli = [f for f in prog.functions if f.file.endswith('cli.cpp') and f.body and any(
-        n['k'] == 'mcall' and SX.short(n['callee']) == 'getQasm' for n in SX.walk(f.body, into_lambdas=False))]
-    if len(cli) != 1:
-        raise AnalysisBroken('CLI run function not found')
-    f = cli[0]
+    from .C17 import cli_run_function
+    f = cli_run_function(prog, 'getQasm')      # with file-local helpers (runMultiShot, writeQasmFile, …) inlined: K-NORM
     g = prog.cfg(f)
     gets = [c for c in g.calls(lambda e: e['k'] == 'mcall' and SX.short(e['callee']) == 'getQasm')]
     chk.count('getQasm call sites in the CLI', len(gets), 2)
-    # the variable holding the listing
+    # the variable(s) holding the listing: assigned from, or initialised with, a getQasm() result
     holders = set()
     for n, l, r, op in g.writes():
         if any(x is c.e for c in gets for x in SX.walk(r)) and SX.is_node(SX.strip(l)) and SX.strip(l).get('k') == 'ref':
             holders.add(SX.strip(l)['id'])
-    if len(holders) != 1:
-        raise AnalysisBroken('the listing is not held in one variable (%d)' % len(holders))
-    hid = list(holders)[0]
-    # stream insertions of that variable
+    for d in g.nodes:
+        if d.kind == 'decl' and SX.is_node(d.e.get('init')) and any(x is c.e for c in gets for x in SX.walk(d.e['init'])):
+            holders.add(d.e['id'])
+    if not holders or len(holders) > len(gets):
+        raise AnalysisBroken('the listing is not held in variables assigned from getQasm() (%d)' % len(holders))
+    # stream insertions of those variables
     outs = []
-    for c in g.calls(lambda e: e['k'] == 'opcall' and e['op'] == '<<' and len(e['args']) == 2 and SX.strip(e['args'][1]).get('id') == hid):
+    for c in g.calls(lambda e: e['k'] == 'opcall' and e['op'] == '<<' and len(e['args']) == 2 and SX.strip(e['args'][1]).get('id') in holders):
         sink = SX.strip(c.e['args'][0])
         kind = 'stdout' if SX.show(sink).endswith('cout') else ('file' if 'ofstream' in sink.get('t', '') else 'other')
-        outs.append((c, kind))
-    files = [c for c, k in outs if k == 'file']
-    stds = [c for c, k in outs if k == 'stdout']
+        outs.append((c, kind, SX.strip(c.e['args'][1])['id']))
+    files = [c for c, k, h in outs if k == 'file']
+    stds = [c for c, k, h in outs if k == 'stdout']
     chk.ob('R05.6', f, f.ln, len(files) >= 2 and len(stds) >= 2, 'both CLI branches stream the listing variable to the .qasm file and (under --emit-qasm) to stdout: file=%d stdout=%d' % (len(files), len(stds)),
            key='same-variable')
-    # no write to the variable between the file write and the stdout write
-    wr = [n for n, l, r, op in g.writes() if SX.is_node(SX.strip(l)) and SX.strip(l).get('id') == hid]
-    for i, s in enumerate(stds):
-        pre = [x for x in files if g.dominates(x, s)]
+    # no write to the variable between the file write and the stdout write (and it is the same variable)
+    for i, (s, k, hid) in enumerate([o for o in outs if o[1] == 'stdout']):
+        wr = [n for n, l, r, op in g.writes() if SX.is_node(SX.strip(l)) and SX.strip(l).get('id') == hid]
+        pre = [x for x, k2, h2 in outs if k2 == 'file' and h2 == hid and g.dominates(x, s)]
         ok = bool(pre) and not any(w.id in g.reachable([pre[-1]], avoid=[s]) and s.id in g.reachable([w]) for w in wr)
-        chk.ob('R05.6', f, s.ln, ok, 'stdout receives the same value that was written to the file (no assignment in between)', key='no-rewrite#%d' % i)
+        chk.ob('R05.6', f, s.ln, ok, 'stdout receives the same value that was written to the file (same variable, no assignment in between)', key='no-rewrite#%d' % i)
     # multi-shot: the evaluator constructed with logging on is the one that is read
     for c in gets:
         obj = SX.strip(c.e['obj'])
